@@ -7,7 +7,8 @@
                      tips, prunecli, prunekeepcli (input = α dump; items are the names of `Tips()`;
                      `prune --random k` removes the selection, with `-r` it keeps it)
   C20.samplecmd fmt k replace seed n bad opened | bounds draws class result   (whole `gotree sample` command:
-              formats newick/nexus/phyloxml, malformed tree at position `bad`, empty input, missing file, k < 0)
+              formats newick/nexus/phyloxml, malformed tree at position `bad`, empty input, missing file, k < 0;
+              k = `d`: the option -n is absent)
   C20.shuffle what seed dump | bounds draws sync class namesAfter          what ∈ lib, cli
   C20.rotate  seed dump path | bounds draws sync class dumpAfter
   C20.rotall  seed dump | bounds draws sync class dumpAfter
@@ -21,6 +22,8 @@
   C20.fib     what k n seed dump | bounds table nonfunc desync seeds
               the whole draw space of a small instance: `table` lists `draws:outcome;`
               for every draw list (outcome of the REAL code on a seed realising it)
+  C20.seedcmd flag | class out1 out2 outLit   (`gotree generate uniformtree -l 12 [--seed flag]` run twice; `flag` = `-`:
+              option absent; outLit = the library call after `rand.Seed(flag)` (`-1` when absent) in the harness)
   C20.marg    what k n seed nseeds | counts   (model-free: how often each simple event happened over the seeds,
               larger n than the fibres reach; exact binomial bounds; supporting evidence)
   C20.freq    what k n seed nseeds | counts   (supporting evidence: outcome frequencies over seeds)
@@ -30,6 +33,7 @@
 -/
 import Driver.Proto
 import Gotree.Spec.C20
+import Gotree.Model.C20Seed
 
 namespace Gotree.Driver.C20
 open Gotree Gotree.Driver Gotree.C20
@@ -337,7 +341,8 @@ def handle (op : String) (f : List String) : Verdict :=
   | "samplecmd", [fmt, ks, replS, _seed, ns, badS, openedS, boundsS, drawsS, cls, resS] =>
     -- the whole `gotree sample` command: items are numbered 0 … n-1; `bad` = position of a malformed
     -- tree put into the file (-1: none); an input without any tree is delivered as one error item
-    match ks.toInt?, ns.toNat?, badS.toInt?, natList boundsS, natList drawsS, natList resS with
+    -- `k` = `d`: the option `-n` is absent, the model takes the option's default
+    match (if ks == "d" then some sampleDefaultN else ks.toInt?), ns.toNat?, badS.toInt?, natList boundsS, natList drawsS, natList resS with
     | some k, some n, some bad, some bounds, some draws, some res =>
       let repl := replS == "1"
       let opened := openedS == "1"
@@ -345,7 +350,7 @@ def handle (op : String) (f : List String) : Verdict :=
         if bad ≥ 0 then (List.range bad.toNat).map some ++ [none]
         else if n == 0 then [none] else (List.range n).map some
       let model := sampleCmd k repl opened items draws
-      let tags := ["samplecmd", "cli", "fmt-" ++ fmt] ++ tagIf repl "replace" ++ tagIf (k < 0) "k<0" ++
+      let tags := ["samplecmd", "cli", "fmt-" ++ fmt] ++ tagIf repl "replace" ++ tagIf (k < 0) "k<0" ++ tagIf (ks == "d") "default-n" ++
         tagIf (!opened) "nofile" ++ tagIf (bad ≥ 0) "malformed-tree" ++ tagIf (n == 0 && bad < 0) "empty-input" ++
         tagIf (model matches .ok _) "ok" ++ tagIf (model == .err) "err" ++ tagIf (model == .panic) "panic" ++
         tagIf (k ≥ 0 && k.toNat < n && k ≥ 1 && bad < 0 && opened) "nontrivial" ++
@@ -453,6 +458,27 @@ def handle (op : String) (f : List String) : Verdict :=
       finish tags oracle (protoMsg script (uniformTreeCmdScript nb n rooted) draws "-")
         (if canons == model.map some then none else some ("model clusters " ++ "/".intercalate (model.map showClusters)))
     | _, _, _, _ => bad "C20.utreecmd fields"
+  | "seedcmd", [flagS, cls, out1, out2, outLit] =>
+    -- cmd/root.go: `--seed` default -1 = the clock; any other value seeds math/rand as it is
+    let flag? : Option (Option Int) := if flagS == "-" then some none else flagS.toInt?.map some
+    match flag? with
+    | none => bad "C20.seedcmd flag"
+    | some flag =>
+      let fixed := seedFixed flag
+      let tags := ["seedcmd", "cli", "nontrivial"] ++ tagIf fixed "seed-fixed" ++ tagIf (!fixed) "seed-clock" ++
+        tagIf (flag == none) "seed-absent" ++ tagIf (fixed && flag.getD 0 ≤ 0) "seed-nonpositive"
+      let oracle : Option String :=
+        if cls != "ok" then some ("outcome class " ++ cls)
+        else if out1 == "" || out2 == "" then some "no tree written"
+        else if fixed && out1 != out2 then some "two runs with the same --seed gave different trees"
+        else if !fixed && out1 == out2 then some "two runs seeded by the clock gave the same tree with its lengths: the seed does not vary"
+        else none
+      -- the model: the source is seeded with `seedUsed flag clock`; the harness seeds its own copy with the literal value
+      let tie : Option String :=
+        if fixed && out1 != outLit then some ("the command did not seed math/rand with " ++ toString (seedUsed flag 0))
+        else if !fixed && out1 == outLit then some "the sentinel -1 was used as a seed"
+        else none
+      finish tags oracle none tie
   | "shufcli", [_seed, dumps, boundsS, drawsS, cls, aftersS] =>
     -- `gotree shuffletips` on a file of several trees
     match (splitTerm "|" dumps).mapM T.undump, natList boundsS, natList drawsS, parseStrLists aftersS with
